@@ -116,7 +116,7 @@ class SetOrder:
     def _classify(self):
         for n in walk_local(self.func):
             if isinstance(n, ast.expr) and self.is_set(n):
-                if isinstance(n, ast.Name) and isinstance(n.ctx, ast.Store):
+                if isinstance(n, (ast.Name, ast.Attribute, ast.Subscript)) and isinstance(n.ctx, (ast.Store, ast.Del)):
                     continue
                 self._use(n, n, setlike=True)
             elif isinstance(n, ast.expr) and self.is_list_from_set(n):
